@@ -85,6 +85,50 @@ func registerEnvStubs() {
 	stubs["context.WithCancel"] = func(x *Exec, f *Closure, a []Value, cc *ssa.CallCommon) Value {
 		return Tuple{a[0], &Closure{Fn: x.eng.nopFunc()}}
 	}
+	// context.WithTimeout / WithDeadline in the code under test: a derived context (type vndDerivedCtx of the harness
+	// runtime) that is done when its parent is done (same error) or when the harness lets time pass (DeadlineExceeded)
+	derived := func(x *Exec, f *Closure, a []Value, cc *ssa.CallCommon) Value {
+		ct := x.eng.derivedCtxType()
+		if ct == nil {
+			x.unsupported("context.WithTimeout: harness runtime type vndDerivedCtx not found")
+		}
+		parent := a[0].(Iface)
+		cell := x.newCell(ct)
+		cell.Kids[0].V = parent
+		timer := &ChanV{Kind: "timer"}
+		x.timerChans = append(x.timerChans, timer)
+		parentDone := func() *ChanV {
+			if parent.T == nil {
+				return nil
+			}
+			fn := x.eng.lookupMethodByName(parent.T, nil, "Done")
+			if fn == nil {
+				x.unsupported("parent context without Done method")
+			}
+			ch, _ := x.callValue(&Closure{Fn: fn}, []Value{parent.V}, nil).(*ChanV)
+			return ch
+		}
+		done := &ChanV{Kind: "derived"}
+		done.Tag = func() *term.Term {
+			return x.ctx.Or(x.chanReady(timer), x.chanReady(parentDone()))
+		}
+		done.OnFire = func() {
+			if _, set := cell.Kids[2].V.(Iface); set && cell.Kids[2].V.(Iface).T != nil {
+				return
+			}
+			if r := x.chanReady(parentDone()); r.IsTrue() {
+				fn := x.eng.lookupMethodByName(parent.T, nil, "Err")
+				cell.Kids[2].V = x.callValue(&Closure{Fn: fn}, []Value{parent.V}, nil)
+				return
+			}
+			g := x.eng.Pkgs["context"].Var("DeadlineExceeded")
+			cell.Kids[2].V = x.load(Ptr{C: x.globalCell(g)})
+		}
+		cell.Kids[1].V = done
+		return Tuple{Iface{T: types.NewPointer(ct), V: Ptr{C: cell}}, &Closure{Fn: x.eng.nopFunc()}}
+	}
+	stubs["context.WithTimeout"] = derived
+	stubs["context.WithDeadline"] = derived
 	stubs["time.NewTimer"] = func(x *Exec, f *Closure, a []Value, cc *ssa.CallCommon) Value {
 		tt := f.Fn.Signature.Results().At(0).Type().(*types.Pointer).Elem()
 		cell := x.newCell(tt)
